@@ -11,6 +11,8 @@ import Bermuda.Lemmas.Extend
 import Bermuda.Lemmas.ExtendFill
 import Bermuda.Lemmas.ExtendInc
 import Bermuda.Lemmas.ExtendIncCum
+import Bermuda.Lemmas.ExtendBackfill
+import Bermuda.Lemmas.ExtendSpec
 import Bermuda.Spec.C15
 namespace Bermuda.Properties.C15
 open Bermuda Bermuda.Extend
@@ -484,6 +486,74 @@ theorem backfill_values {first : Cell} {statics : List String} {repl : Dict Val}
   rw [List.nil_append] at this
   exact this
 
+/-- **backfill_min_lag_exact**: for every period row (its first cell `first` is the earliest observation
+of the period's first slice) and a positive resolution, every step `i < backfillSteps` — i.e. every lag
+`first_lag - (i+1)·res` not below `max(min_dev_lag, -period_resolution + 1)` — is supplied, as long as
+the cells up to it pass the constructor (the Python loop `break`s at the first `ValueError`). -/
+theorem backfill_min_lag_exact {t out : List Cell} {statics : List String} {res? : Option Int}
+    {minLag pres res : Int} (h : backfill t statics res? minLag = .ok out)
+    (hpres : periodResolution t = some pres) (hres : resolvedRes t res? = some res) (hpos : 0 < res)
+    {row : Period × List Cell} (hrow : row ∈ periodRows t) {first : Cell} (hf : row.2.head? = some first) :
+    ∃ repl, replacementValues first statics = .ok repl ∧
+      ∀ i, i < backfillSteps first.devLag res (max minLag (-pres + 1)) →
+        (∀ j, j ≤ i → (backfillCell first repl res j).datesOk = true) →
+        backfillCell first repl res i ∈ out := by
+  unfold backfill at h
+  simp only [hpres, bind, Except.bind, pure, Except.pure] at h
+  split at h
+  · cases h
+  · rename_i parts hparts
+    split at h
+    · cases h
+    · rename_i addTri hadd
+      unfold Triangle.add at h
+      have hperm := Properties.C01.ofCells_perm h
+      have hperm2 := Properties.C01.ofCells_perm hadd
+      obtain ⟨ys, hys, hrowok⟩ := mapM_ok_mem' hparts row hrow
+      change backfillRow statics (resolvedRes t res?) minLag (-pres + 1) row.2 = .ok ys at hrowok
+      rw [hres] at hrowok
+      obtain ⟨repl, hrepl, rfl⟩ := backfillRow_ok_pos hf hpos hrowok
+      refine ⟨repl, hrepl, ?_⟩
+      intro i hi hok
+      apply hperm.mem_iff.mpr
+      apply List.mem_append_right
+      apply hperm2.mem_iff.mpr
+      apply List.mem_flatten.mpr
+      refine ⟨_, hys, ?_⟩
+      have hlen : i < ((List.range (backfillSteps first.devLag res (max minLag (-pres + 1)))).map
+          (backfillCell first repl res)).length := by simpa using hi
+      have := takeValid_mem _ i hlen (by
+        intro j hj
+        simp only [List.getElem_map, List.getElem_range]
+        exact hok j hj)
+      simpa using this
+
+/-- **backfill_before_first_dates**: on a month-aligned first cell (integer first lag `k0`), the cell of
+step `i` sits at the integer lag `k0 - (i+1)·res` and — when that month is not before 1970 — its evaluation
+date strictly precedes the row's first observation. -/
+theorem backfill_before_first_dates {first : Cell} {repl : Dict Val} {res : Int} {i : Nat}
+    (hal : MonthAligned first) (hres : 0 < res)
+    (h70 : 0 ≤ monthToId first.ev - ((i : Int) + 1) * res) :
+    (backfillCell first repl res i).ev < first.ev := by
+  obtain ⟨hpv, hpe, hev, hee, hpy, hey⟩ := hal
+  have hlag : first.devLag = ((monthToId first.ev - monthToId first.pe : Int) : Rat) :=
+    devLagMonths_monthEnds hpe hee
+  have hcast : first.devLag - (((i : Int) + 1 : Int) : Rat) * (res : Rat)
+      = (((monthToId first.ev - monthToId first.pe - ((i : Int) + 1) * res : Int)) : Rat) := by
+    rw [hlag]; push_cast; ring
+  show addMonths first.pe (first.devLag - (((i : Int) + 1 : Int) : Rat) * (res : Rat)) < first.ev
+  rw [hcast]
+  apply addMonths_before ⟨hpv, hpe, hev, hee, hpy, hey⟩
+  · show ((_ : Int) : Rat) < devLagMonths first.pe first.ev
+    rw [show devLagMonths first.pe first.ev = first.devLag from rfl, hlag]
+    have : monthToId first.ev - monthToId first.pe - ((i : Int) + 1) * res
+        < monthToId first.ev - monthToId first.pe := by
+      have : 0 < ((i : Int) + 1) * res := Int.mul_pos (by omega) hres
+      omega
+    exact_mod_cast this
+  · omega
+
+
 /-! ### `fill_forward_gaps` -/
 
 /-- **fill_preserves_observed**: when no two cells of a slice row share a development lag (the rows are
@@ -530,6 +600,65 @@ theorem fill_values {res : Int} {nf : Bool} {row : List Cell} {c : Cell} (h : Fi
   refine ⟨o, ho, lag, hlt, hnear, ?_⟩
   cases nf <;> simp [fillCell]
 
+/-! ### the executable Spec on the model's output -/
+
+/-- **extensionSpec_model_partial**: the executable Spec clauses `valuesEmpty`, `basis`, `disjoint` and
+`afterLatest` of `rightTriSpec` hold of the model's right triangle (month unit, month-aligned triangle
+from 1970 on, integer requested lags). Missing: the remaining clauses (`onGrid`, `complete`, `nodup`,
+`chain`, `emptyWhenComplete`, `canonical` are proved only in their Prop forms above) and the other
+three operators. -/
+theorem extensionSpec_model_partial {t out : List Cell} {lags : Option (List Rat)}
+    (h : makeRightTriangleU t lags (some .month) = .ok out) (hal : ∀ c ∈ t, MonthAligned c)
+    (hint : ∀ l, lags = some l → ∀ lag ∈ l, ∃ k : Int, lag = ((k : Int) : Rat)) :
+    Spec.C15.valuesEmpty out = true ∧ Spec.C15.basisKept t out = true ∧
+    Spec.C15.disjoint t out = true ∧ Spec.C15.afterLatest t out = true := by
+  refine ⟨?_, ?_, ?_, ?_⟩
+  · simp only [Spec.C15.valuesEmpty, List.all_eq_true]
+    intro c hc
+    rw [rightTri_values_empty h c hc]; rfl
+  · unfold Spec.C15.basisKept
+    have hb := rightTri_basis h
+    cases hinc : Triangle.isIncremental t with
+    | false =>
+      simp only [Bool.false_eq_true, if_false, List.all_eq_true]
+      intro c hc
+      have := hb c hc
+      simp only [hinc, Bool.false_eq_true, if_false] at this
+      simp [this.1, this.2]
+    | true =>
+      simp only [if_true, List.all_eq_true]
+      intro c hc
+      have := hb c hc
+      simp only [hinc, if_true] at this
+      simp [this.1, this.2]
+  · simp only [Spec.C15.disjoint, List.all_eq_true, Bool.not_eq_true', List.any_eq_false]
+    intro c hc o ho
+    simp only [Spec.C15.sameCoord, Bool.and_eq_true, beq_iff_eq, not_and]
+    intro hrow hev
+    obtain ⟨h1, h2, h3⟩ := sameRow_iff.mp hrow
+    have := rightTri_disjoint h hal hint hc ho h1.symm h2.symm h3.symm
+    rw [hev] at this
+    rw [Date.lt_iff] at this; omega
+  · simp only [Spec.C15.afterLatest, List.all_eq_true]
+    intro c hc
+    obtain ⟨x, hx, hm, hps, hpe, _⟩ := rightTri_metadata h hc
+    have hxr : x ∈ Spec.C15.rowOf t c := by
+      simp only [Spec.C15.rowOf, List.mem_filter]
+      exact ⟨hx, sameRow_iff.mpr ⟨hm, hps, hpe⟩⟩
+    cases hmax : maxEval (Spec.C15.rowOf t c) with
+    | none =>
+      cases hr : Spec.C15.rowOf t c with
+      | nil => rw [hr] at hxr; cases hxr
+      | cons a rest => rw [hr] at hmax; simp [maxEval] at hmax
+    | some m =>
+      obtain ⟨o, ho, hoe⟩ := maxEval_mem hmax
+      simp only [Spec.C15.rowOf, List.mem_filter] at ho
+      obtain ⟨h1, h2, h3⟩ := sameRow_iff.mp ho.2
+      have := rightTri_disjoint h hal hint hc ho.1 h1.symm h2.symm h3.symm
+      simp only [Spec.C15.optLt, decide_eq_true_eq]
+      rw [← hoe]; exact this
+
+
 /-! ### non-vacuity: a concrete month-aligned two-row triangle meets the hypotheses -/
 
 def exCells : List Cell :=
@@ -543,6 +672,17 @@ theorem exCells_aligned : ∀ c ∈ exCells, MonthAligned c := by
   rcases hc with rfl | rfl | rfl <;> (unfold MonthAligned; decide)
 
 theorem exCells_cumulative : Triangle.isIncremental exCells = false := rfl
+
+/-- the grid hypothesis of the fill theorems is satisfiable: the lags 0, 3, 0 of `exCells` lie on the
+grid of step 3 -/
+example : GridRow 3 exCells := by
+  refine ⟨0, ?_⟩
+  intro o ho
+  simp only [exCells, List.mem_cons, List.not_mem_nil, or_false] at ho
+  rcases ho with rfl | rfl | rfl
+  · exact ⟨0, by decide +kernel⟩
+  · exact ⟨1, by decide +kernel⟩
+  · exact ⟨0, by decide +kernel⟩
 
 /-- `backfill_min_lag` is not vacuous: first lag 3, resolution 1, bound 0 gives three steps -/
 example : 2 < backfillSteps 3 1 0 := by decide +kernel
@@ -563,14 +703,8 @@ example : replacementValues exFirst ["earned_premium"]
 
 -- OPEN rightTri_disjoint_other_units
 --   as `rightTri_disjoint` for the day unit and for fractional (non-integer) month lags
--- OPEN backfill_before_first_dates
---   under month alignment the evaluation date of every added cell precedes the row's first observation:
---   (∀ c ∈ t, MonthAligned c) → ... → a = backfillCell first repl res i → a.ev < first.ev
--- OPEN backfill_min_lag_exact
---   for the first slice of every period ALL lags first - k·res ≥ max(min_dev_lag, -period_resolution+1) are supplied
---   (Spec.C15.backfillMinLag); needs `takeValid` = identity, i.e. every such cell passes the constructor
 -- OPEN extensionSpec_model
---   the Spec predicates hold of the model's outputs:
+--   (partial: `extensionSpec_model_partial`) ALL Spec predicates hold of the model's outputs:
 --   makeRightTriangle t lags unit = .ok out → LagUnit.parse? unit = some u → Spec.C15.allHold (Spec.C15.rightTriSpec t lags u out) = true
 --   (and the analogues for rightDiagSpec, fillSpec, backfillSpec)
 
